@@ -24,6 +24,8 @@ Operations (lists, so that they stay small in replay files):
                                                 {"kind": k, "n": n} = the n-th in-tree node of that kind
     ["del", api, form, nref, klen]              api: "del_member" | "delitem"; nref as above or literal names
     ["resolve", aref, how]                      how: "resolve_target" | "target" | "final_target"
+    ["switch"]                                  there are two ModulesCollections; all places refer to the current one; a subtree
+                                                detached from one (e.g. a deleted top-level module) can be re-inserted into the other
     ["retarget", aref, mode, oref]              mode: "obj" (alias.target = in-tree non-alias object) | "self"
                                                 | "same-obj" | "same-alias" (a detached object/alias with the alias's own path)
 
@@ -54,6 +56,8 @@ ALLOWED_IN = {
 K_STALE = "stale-alias-key-after-ancestor-move"
 K_TOPLEVEL = "collection-insert-keeps-old-parent"
 K_CLOBBER = "detached-alias-backref-clobbers-registration"
+K_DEMOTED = "demoted-module-keeps-collection"
+K_MERGE = "stub-merge-before-attach-misregisters-aliases"
 
 
 class Skip(Exception):
@@ -61,7 +65,7 @@ class Skip(Exception):
 
 
 class Node:
-    __slots__ = ("attached", "dead", "fp", "id", "kind", "members", "name", "parent")
+    __slots__ = ("attached", "dead", "fp", "id", "kind", "members", "name", "parent", "was_top")
 
     def __init__(self, id_: int, kind: str, name: str, fp=None):
         self.id = id_
@@ -72,6 +76,7 @@ class Node:
         self.parent: Node | None = None  # model container (None: detached root or the collection itself)
         self.dead = False  # consumed by a stub merge: never re-inserted
         self.attached = -1  # (aliases) number of the step that last attached / re-targeted it
+        self.was_top = False  # (modules) has been a top-level member of a collection at some time
 
 
 class World:
@@ -82,7 +87,12 @@ class World:
         self.allowed_alias_errors = (griffe.AliasResolutionError, griffe.CyclicAliasError)
         self.mc = griffe.ModulesCollection()
         self.root = Node(0, "collection", "")
-        self.real: dict[int, object] = {0: self.mc}
+        # a second collection: ["switch"] makes it the current one; a top-level module deleted from one collection can be
+        # re-inserted (as a detached subtree) into the other
+        self.other_mc = griffe.ModulesCollection()
+        self.other_root = Node(-1, "collection", "")
+        self.real: dict[int, object] = {0: self.mc, -1: self.other_mc}
+        self.node_of: dict[int, Node] = {}  # id(real object) -> node
         self.limbo: list[Node] = []
         self.aliases_ever: list[Node] = []
         self.next_id = 1
@@ -206,6 +216,7 @@ class World:
                 real = call("op-raises", g.Alias, name, target=self.real[tnode.id], what="Alias(name, target=object)", **parent_kw)
             self.aliases_ever.append(node)
             self.real[node.id] = real
+            self.node_of[id(real)] = node
             return node, real, [kind, ".".join(tpath), pk]
         if kind == "module":
             node = self._new_node("module", name, val[1])
@@ -226,6 +237,7 @@ class World:
         else:
             raise ValueError(f"unknown value kind {kind!r}")
         self.real[node.id] = real
+        self.node_of[id(real)] = node
         return node, real, conc
 
     @staticmethod
@@ -263,6 +275,12 @@ class World:
                 fails = self._op_resolve(*op[1:])
             elif kind == "retarget":
                 fails = self._op_retarget(*op[1:])
+            elif kind == "switch":
+                self.mc, self.other_mc = self.other_mc, self.mc
+                self.root, self.other_root = self.other_root, self.root
+                self.trace.append(["switch", "current collection is now #" + str(-self.root.id)])
+                self.classes["switch-collection"] += 1
+                fails = []
             else:
                 raise ValueError(f"unknown operation {op!r}")
         except Skip as skip:
@@ -401,6 +419,8 @@ class World:
         if final is not old:
             cont.members[name] = final
             final.parent = cont
+        if cont is self.root:
+            final.was_top = True
         self.classes[f"set:{api}:{form}:{len(key)}"] += 1
         self.classes[f"set:{final.kind}@{cont.kind}"] += 1
 
@@ -458,6 +478,14 @@ class World:
         if self._filepath(old.fp, old.name) == self._filepath(new.fp, new.name):
             return None
         if old.fp.startswith("pyi"):
+            if K_MERGE in self.known and new_real.parent is None and any(
+                n.kind == "alias" and self.real[n.id].resolved for n in self.subtree(old)
+            ):
+                # the stubs' members are moved into the new module *before* it is attached (its path is still its bare
+                # name): resolved aliases among them register themselves under that wrong path, possibly over the
+                # entry of another alias
+                self.on_excluded(K_MERGE)
+                raise Skip("known:" + K_MERGE)
             return new, old
         if new.fp.startswith("pyi"):
             return old, new
@@ -487,6 +515,15 @@ class World:
                 if n is not node and n.kind == "alias" and self.real[n.id].resolved:
                     self.on_excluded(K_STALE)
                     raise Skip("known:" + K_STALE)
+        if K_DEMOTED in self.known:
+            # a module that has been top-level keeps its own `_modules_collection`; below another module it only
+            # matters once the tree lives in another collection
+            for n in self.subtree(node):
+                if n.kind == "module" and n.was_top and not (n is node and cont is self.root):
+                    own = getattr(self.real[n.id], "_modules_collection", None)
+                    if own is not None and own is not self.mc:
+                        self.on_excluded(K_DEMOTED)
+                        raise Skip("known:" + K_DEMOTED)
         if K_TOPLEVEL in self.known and cont is self.root and self.real[node.id].parent is not None:
             self.on_excluded(K_TOPLEVEL)
             raise Skip("known:" + K_TOPLEVEL)
@@ -699,6 +736,20 @@ class World:
 
     # ------------------------------------------------------------------ invariants
     def check_invariants(self) -> list[Fail]:
+        fails = self._check_current_collection()
+        if not fails and self.other_root.members:
+            self.mc, self.other_mc = self.other_mc, self.mc
+            self.root, self.other_root = self.other_root, self.root
+            try:
+                fails = self._check_current_collection()
+                for f in fails:
+                    f.message = "[in the other collection] " + f.message
+            finally:
+                self.mc, self.other_mc = self.other_mc, self.mc
+                self.root, self.other_root = self.other_root, self.root
+        return fails
+
+    def _check_current_collection(self) -> list[Fail]:
         fails: list[Fail] = []
         mc = self.mc
         desc = self.opdesc
@@ -731,6 +782,18 @@ class World:
                         fail("parent", f"top-level module {name!r}: modules_collection is not the collection it was inserted in")
                 elif real.parent is not creal:
                     fail("parent", f"{'.'.join(path)}: parent is {real.parent!r}, container is {creal!r}")
+                elif call("op-raises", lambda r=real: r.modules_collection, what="modules_collection") is not mc:
+                    holder = real
+                    while getattr(holder, "_modules_collection", None) is None and holder.parent is not None:
+                        holder = holder.parent
+                    hnode = self.node_of.get(id(holder))
+                    fail(
+                        "collection",
+                        f"{'.'.join(path)} is reachable from one collection but reports another one as its modules_collection "
+                        f"(the stale reference is held by {getattr(holder, 'path', holder)!r})",
+                        at=".".join(path), holder_kind=getattr(hnode, "kind", None), holder_was_top=bool(hnode and hnode.was_top),
+                        holder_is_top=bool(hnode and hnode.parent is self.root),
+                    )
                 in_tree.append((node, path))
                 if node.kind in ("module", "class"):
                     stack.append((node, path))
@@ -817,11 +880,14 @@ class World:
                 occupant = target.aliases.get(own)
                 tree_reals = {id(self.real[n.id]) for n, _ in in_tree}
                 occupant_detached = occupant is not None and id(occupant) not in tree_reals
+                occupant_path = None
+                if occupant is not None and not occupant_detached:
+                    occupant_path = occupant.path
                 fail(
                     "alias-registered",
                     f"resolved alias {own!r} -> {ar.target_path!r}" + (f" (alias chain ending at {target.path!r})" if chain else "")
                     + f": target.aliases[{own!r}] is {target.aliases.get(own)!r}; the alias is registered under {keys!r}",
-                    alias=own, keys=keys, occupant_detached=occupant_detached, chain=chain,
+                    alias=own, keys=keys, occupant_detached=occupant_detached, occupant_path=occupant_path, chain=chain,
                     links=links if chain else None,
                 )
         if n_direct:
